@@ -161,9 +161,12 @@ def gen_case(r, idx, profile):
             c = r.choice(CLIENTS)
             i = r.choice([1, 2, 3, 4, 300])
             n = r.choice(PRENAMES)
-            if (n in seen) or any(pc == c and pi == i for pc, pi, _ in predef):
+            if ((c, n) in seen) or any(pc == c and pi == i for pc, pi, _ in predef):
                 continue
-            seen.add(n)
+            # one client must not see the same name under two IDs (the gateway would pick either)
+            if any(pn == n and (pc == c or pc == b'*' or c == b'*') for pc, _, pn in predef):
+                continue
+            seen.add((c, n))
             predef.append((c, i, n))
     idrange = None
     if profile == 'ids' or r.random() < 0.12:
@@ -269,8 +272,11 @@ def gen_case(r, idx, profile):
                 if r.random() < 0.9:
                     g.mq("pubcomp %d" % mid)
 
+    # every name of the predefined configuration, including entries hidden from this client
+    allpre = [n for _, _, n in predef if n]
+
     def client_register():
-        name = r.choice(NAMES)
+        name = r.choice(allpre) if (allpre and r.random() < 0.15) else r.choice(NAMES)
         mid = g.nmid()
         g.maybe.add(name)
         g.sn(register(r.choice([0, 0, 5]), mid, name))
@@ -292,7 +298,7 @@ def gen_case(r, idx, profile):
         v = r.random()
         mid = g.nmid()
         if v < 0.55:
-            name = r.choice(NAMES)
+            name = r.choice(allpre) if (allpre and r.random() < 0.12) else r.choice(NAMES)
             if name in g.maybe and b'+' not in name and b'#' not in name:
                 name = r.choice([b'a/+', b'#', b'a/#'])
             g.maybe.add(name)
@@ -327,8 +333,9 @@ def gen_case(r, idx, profile):
             name = r.choice(list(g.reg))
         elif v < 0.45:
             name = r.choice([b'ab', b'zz', b'+a', b'\xc3\xa9', b'\xff\x80'])
-        elif v < 0.6 and visible:
-            name = r.choice(list(visible.values()))
+        elif v < 0.6 and allpre:
+            # also names whose "*" entry is shadowed by a client-specific one
+            name = r.choice(allpre)
         else:
             name = r.choice([b'new/1', b'new/2', b'new/3', b'n', b'a/b/c'])
         mid = g.nbmid() if qos else 0
